@@ -7,6 +7,7 @@ import (
 	"strings"
 
 	"github.com/grafana/cog/internal/ast"
+	"github.com/grafana/cog/internal/ast/compiler"
 	"github.com/grafana/cog/internal/orderedmap"
 )
 
@@ -335,7 +336,7 @@ func callDeepCopy(v reflect.Value) (reflect.Value, bool) {
 }
 
 func checkC18(r *Run) {
-	r.Rule = "reflectively filled values of every IR node type that has a DeepCopy method (all exported fields populated across the run — measured per field); distinct = distinct canonical forms; non-trivial = value has at least one pointer/slice/map populated. Oracles: structural equality (nil≡empty collections), disjointness of pointer targets / maps / slice backing arrays (reflection walk incl. unexported fields and `any` contents), and scribble-the-copy-then-rehash-the-original. Plus: every Passes.Process copy (chain.begin hook) on irgen schemas."
+	r.Rule = "reflectively filled values of every IR node type that has a DeepCopy method (all exported fields populated across the run — measured per field); the duplicate_object transformation (with and without omit_fields) on irgen schemas: the source object it leaves behind equals the source object it was given, the duplicate shares nothing with it; distinct = distinct canonical forms; non-trivial = value has at least one pointer/slice/map populated. Oracles: structural equality (nil≡empty collections), disjointness of pointer targets / maps / slice backing arrays (reflection walk incl. unexported fields and `any` contents), and scribble-the-copy-then-rehash-the-original. Plus: every Passes.Process copy (chain.begin hook) on irgen schemas."
 	targets := c18Targets()
 	perType := r.n(40, 1500)
 	f := &filler{populated: map[string]int{}, seenField: map[string]struct{}{}}
@@ -408,6 +409,8 @@ func checkC18(r *Run) {
 
 	// (ii) hook sites on irgen workloads
 	c18HookSites(r)
+	// (iii) the rules that duplicate
+	c18DuplicateObject(r)
 	r.Assumptions = append(r.Assumptions,
 		"`any` fields that hold scalars in real runs (enum values, constant values, constraint args, path index constants) are filled with immutable scalars; Type.Default, hint values, option defaults, assignment constants and typed constants are filled with nested lists/maps/types as the parsers and passes produce them")
 }
@@ -456,5 +459,130 @@ func c18HookSites(r *Run) {
 	r.Count("hook.chain.begin_events", events)
 	if events == 0 {
 		r.Inconclusive("hook chain.begin never fired")
+	}
+}
+
+// c18DuplicateObject: the `duplicate_object` schema transformation copies an object under another name, optionally
+// without some of its members. The original must come out of it as it went in, and the two must share nothing.
+func c18DuplicateObject(r *Run) {
+	n := r.n(60, 1200)
+	events := 0
+	for c := 0; c < n; c++ {
+		rng := newRNG("C18dup", r.Seed, c)
+		o := defaultIROpts()
+		o.Pkgs = 2
+		schemas, _ := genSchemas(rng, o)
+		// candidates: struct objects (omit_fields applies) and, every 4th case, any object
+		type cand struct{ pkg, name string }
+		var structs, others []cand
+		for _, s := range schemas {
+			s.Objects.Iterate(func(_ string, obj ast.Object) {
+				if obj.Type.Kind == ast.KindStruct && obj.Type.Struct != nil && len(obj.Type.Struct.Fields) > 0 {
+					structs = append(structs, cand{s.Package, obj.Name})
+				} else {
+					others = append(others, cand{s.Package, obj.Name})
+				}
+			})
+		}
+		pool := structs
+		if c%4 == 3 && len(others) > 0 {
+			pool = others
+		}
+		if len(pool) == 0 {
+			continue
+		}
+		src := pick(rng, pool)
+		srcObj, _ := schemas.LocateObject(src.pkg, src.name)
+		var omit []string
+		if srcObj.Type.Kind == ast.KindStruct && c%3 != 0 {
+			fields := srcObj.Type.Struct.Fields
+			omit = append(omit, fields[rng.Intn(len(fields))].Name)
+			if len(fields) > 2 && rng.Bool() {
+				omit = append(omit, strings.ToUpper(fields[len(fields)-1].Name)) // matching is case-insensitive
+			}
+		}
+		destPkg := src.pkg
+		if c%5 == 4 {
+			destPkg = schemas[(c/5)%len(schemas)].Package
+		}
+		pass := &compiler.DuplicateObject{
+			Object:     compiler.ObjectReference{Package: src.pkg, Object: src.name},
+			As:         compiler.ObjectReference{Package: destPkg, Object: src.name + "Twin"},
+			OmitFields: omit,
+		}
+		before := canon(srcObj)
+		replay := map[string]any{"case": c, "source": src.pkg + "." + src.name, "omit_fields": omit, "as": destPkg + "." + src.name + "Twin", "schemas": mustJSON(schemas)}
+		var out ast.Schemas
+		var err error
+		pv, stack := guard(func() { out, err = compiler.Passes{pass}.Process(schemas) })
+		r.Eval()
+		if pv != nil {
+			r.Violation("panic/duplicate_object/"+panicClass(pv)+"@"+topCogFrame(stack), fmt.Sprint(pv), replay)
+			continue
+		}
+		if err != nil {
+			r.Count("duplicate_object_errors", 1)
+			continue
+		}
+		events++
+		r.Distinct("dup" + before + strings.Join(omit, ","))
+		if canon(srcObj) != before {
+			r.Violation("mutation-leak/duplicate_object/input-schemas-changed", "the schemas handed to the transformation were modified", replay)
+			continue
+		}
+		kept, found := out.LocateObject(src.pkg, src.name)
+		if !found {
+			r.Violation("unfaithful/duplicate_object/source-object-gone", "the source object is no longer in the schemas", replay)
+			continue
+		}
+		if after := canon(kept); after != before {
+			p, _ := firstDiffCanon(before, after)
+			tag := "source-object-changed"
+			if len(omit) > 0 {
+				tag += "/with-omit_fields"
+			}
+			r.Violation("mutation-leak/duplicate_object/"+tag, fmt.Sprintf("duplicating %s.%s (omit_fields=%v) changed the object itself near: %s", src.pkg, src.name, omit, p), replay)
+			continue
+		}
+		twin, found := out.LocateObject(destPkg, src.name+"Twin")
+		if !found {
+			r.Violation("unfaithful/duplicate_object/no-duplicate", "no duplicate was registered", replay)
+			continue
+		}
+		// the duplicate: same type, minus the omitted members
+		want := kept.DeepCopy()
+		if want.Type.Kind == ast.KindStruct && want.Type.Struct != nil && len(omit) > 0 {
+			var fs []ast.StructField
+			for _, f := range want.Type.Struct.Fields {
+				drop := false
+				for _, o := range omit {
+					if strings.EqualFold(o, f.Name) {
+						drop = true
+					}
+				}
+				if !drop {
+					fs = append(fs, f)
+				}
+			}
+			want.Type.Struct.Fields = fs
+		}
+		if a, b := canon(want.Type), canon(twin.Type); a != b {
+			p, _ := firstDiffCanon(a, b)
+			r.Violation("unfaithful/duplicate_object/duplicate-type-differs", fmt.Sprintf("the duplicate of %s.%s (omit_fields=%v) differs from its source near: %s", src.pkg, src.name, omit, p), replay)
+		}
+		for _, sp := range sharedRefs(kept, twin) {
+			r.Violation("aliasing/duplicate_object/"+sp, "the duplicate shares mutable structure with its source at "+sp, replay)
+		}
+		addr := reflect.New(reflect.TypeOf(twin)).Elem()
+		addr.Set(reflect.ValueOf(twin))
+		scribble(addr, 0)
+		if after := canon(kept); after != before {
+			p, _ := firstDiffCanon(before, after)
+			r.Violation("mutation-leak/duplicate_object/through-the-duplicate", "mutating the duplicate changed its source near: "+p, replay)
+		}
+	}
+	r.Count("events.duplicate_object", events)
+	if events == 0 {
+		r.Inconclusive("no duplicate_object transformation was observed")
 	}
 }
